@@ -346,6 +346,21 @@ func c02NewFixture(x *h.Ctx, policyJSON []byte) (*c02Fixture, error) {
 	return fx, nil
 }
 
+// advanceStore lets d pass for the session store: every entry has d less to live; what would have expired is gone.
+func (fx *c02Fixture) advanceStore(d time.Duration) {
+	now := time.Now().UnixNano()
+	for k, it := range fx.cache.Items() {
+		if it.Expiration == 0 {
+			continue
+		}
+		if rem := time.Duration(it.Expiration-now) - d; rem <= 0 {
+			fx.cache.Delete(k)
+		} else {
+			fx.cache.Set(k, it.Object, rem)
+		}
+	}
+}
+
 // storeKeys lists the live session-store keys with the given prefix (e.g. "serveraccesstoken/").
 func (fx *c02Fixture) storeKeys(prefix string) []string {
 	var out []string
